@@ -211,10 +211,14 @@ def commaPieces : Bool → List Str → List Str
 
 def ListClass.splitter : ListClass → Str → List Str
   | .space, s => splitWs s
-  | .comma, s => commaPieces true (splitChar ',' s)
+  | .comma, s => (commaPieces true (splitChar ',' (strip s))).filter (fun x => !x.isEmpty)
+
+/-- `SeparatedListOf.setValue(v)`: an item its own list syntax would split or alter is refused -/
+def ListClass.setValue (k : ListClass) (xs : List Str) : SetRes (List Str) :=
+  if xs.all (fun x => k.splitter x == [x]) then .ok xs else .error
 
 /-- `SeparatedListOf.set(s)`: every piece goes through `String(piece, '')()`, which is the piece -/
-def ListClass.set (k : ListClass) (s : Str) : List Str := k.splitter s
+def ListClass.set (k : ListClass) (s : Str) : SetRes (List Str) := k.setValue (k.splitter s)
 
 def ListClass.joiner : ListClass → List Str → Str
   | .space, xs => joinStr Gen.Registry.spaceJoin xs
